@@ -25,7 +25,7 @@ RULE = ("BFS over operation histories on a real Series (alphabet of ~150 concret
         "compared with the reference map")
 MANIFEST_ENTRY = dict(level="model_checking", design="DESIGN.md section 4 / C10",
     technique="explicit-state BFS over Series operation histories on the real object with a dict reference model stepped in lock-step",
-    text="Level-synchronous BFS over all operation sequences up to depth 2 (quick; depth 3 on the quarterly core alphabet) / depth 3 full and depth 4 core (thorough) from 7 initial states on quarterly series and depth 1-2 on monthly, yearly, daily and integer series; on every transition the full (period, variant) map on a guarded window, span coverage, trimming after writes/arithmetic, the read API, isolation of functional forms and copy(), integrity of all operands and rejection of mixed frequencies are checked against a 200-line dict reference.",
+    text="Level-synchronous BFS over all operation sequences of the full alphabet (~190 operations) up to depth 2 and of a 29-operation span-moving sub-alphabet up to depth 3 (quick) / full alphabet depth 3, core alphabet depth 3 and sub-alphabet up to depth 6 under a reported time cap (thorough) from 7 initial states on quarterly series and depth 1-2 on monthly, yearly, daily and integer series; on every transition the full (period, variant) map on a guarded window, span coverage, trimming after writes/arithmetic, the read API, isolation of functional forms and copy(), integrity of all operands and rejection of mixed frequencies are checked against a 200-line dict reference.",
     note="Trusted: numpy scalar arithmetic and the reference in this module. Window of 6 periods + guards, value table of 5 numbers (rotated by seed), variants 1-2. Not asserted: keyword shifts (C13), fill 'nearest' ties and 'linear' edge rule (undocumented), multi-variant filler series, clip on an empty series.")
 ASSUMPTIONS = ["IEEE/numpy scalar arithmetic is the meaning of the arithmetic operators",
                "span-sensitive operations (underlay, fill_missing on the own span) are only applied from states whose stored span equals the hull of their observations"]
@@ -221,8 +221,15 @@ def build(f, r: Ref):
 # ---------------------------------------------------------------------------
 
 def alphabet(f, vals, level):
-    """level 'full' | 'core'.  Operations are plain tuples (JSON-able)."""
+    """level 'full' | 'core' | 'mini'.  Operations are plain tuples (JSON-able)."""
     a, b, c, d, e = vals
+    if level == "mini":
+        # the operations that move, grow, shrink or combine spans - for deep sequences
+        return [("set", -1, a), ("set", 2, "nan"), ("set", 6, a), ("setv", 1, 1, c), ("setspan", 0, 3, "nan"), ("setspan", 2, 5, c),
+                ("setser", "gap", 1, 3), ("shift_m", -1), ("shift_m", 2), ("shift_lag", 1), ("clip", 1, 3), ("clip", None, 2), ("clip", 6, 9),
+                ("overlay_m", "gap"), ("overlay_m", "two"), ("underlay_m", "ov"), ("underlay_f", "far"), ("hstack_or", "gap"),
+                ("sc", "mul", b, "l"), ("sc", "sub", b, "r"), ("bin", "add", "gap", "l"), ("bin", "div", "two", "r"), ("bin", "sub", "self", "l"),
+                ("un", "neg"), ("el_m", "log"), ("mov_m", "mov_sum", -2), ("fill_m", "previous"), ("copy",), ("call", 1, 2)]
     ops = []
     # writes
     for i in (-1, 0, 2, 6):
@@ -860,20 +867,25 @@ class MachineOther(Machine):
 
 FULL_Q = MachineQ("full")
 CORE_Q = MachineQ("core")
+MINI_Q = MachineQ("mini")
 FULL_OTHER = MachineOther("full")
 
 
 def run(ctx, total, info):
     parts = []
+    import time
     if ctx.quick:
-        plan = [("FULL_Q", 2), ("FULL_OTHER", 1)]
+        plan = [("FULL_Q", 2, None), ("FULL_OTHER", 1, None), ("MINI_Q", 3, None)]
     else:
-        plan = [("FULL_Q", 3), ("FULL_OTHER", 2), ("CORE_Q", 4)]
+        # the last exploration runs under a time cap; a level that is cut short is reported as such
+        cap = (ctx.cap_s or 15 * 60)
+        plan = [("FULL_Q", 3, None), ("FULL_OTHER", 2, None), ("CORE_Q", 3, None), ("MINI_Q", 6, cap)]
     states = transitions = 0
     complete = True
-    for name, depth in plan:
+    for name, depth, cap in plan:
         before = total.transitions
-        ex = engine.explore(__name__, name, ctx, total, max_depth=depth)
+        ex = engine.explore(__name__, name, ctx, total, max_depth=depth, deadline=(time.time() + cap) if cap else None)
+        ex["time_cap_s"] = cap
         ex["transitions"] = total.transitions - before
         parts.append(dict(ex, machine=name))
         states += ex["states"]
@@ -884,7 +896,9 @@ def run(ctx, total, info):
     info["traces_validated_against_impl"] = transitions
     info["max_depth"] = max(p["max_depth"] for p in parts)
     info["explorations"] = parts
-    info["alphabet_size"] = {"full_Q": len(alphabet(C.Q, VALTAB[0], "full")), "core_Q": len(alphabet(C.Q, VALTAB[0], "core"))}
+    info["alphabet_size"] = {"full_Q": len(alphabet(C.Q, VALTAB[0], "full")), "core_Q": len(alphabet(C.Q, VALTAB[0], "core")),
+                             "mini_Q": len(alphabet(C.Q, VALTAB[0], "mini"))}
+    info["fully_completed"] = [(p["machine"], p["max_depth"]) for p in parts]
     info["alphabet"] = [list(map(str, o)) for o in alphabet(C.Q, VALTAB[0], "full")]
     info["initial_state_names"] = sorted(init_refs(VALTAB[0]))
     info["exhaustive"] = complete
@@ -895,7 +909,7 @@ def run(ctx, total, info):
 def replay(case):
     res = engine.Result()
     ctx = engine.Ctx("quick", int(case.get("valtab", 0)))
-    m = {"full": FULL_Q, "core": CORE_Q}.get(case.get("level", "full"), FULL_Q)
+    m = {"full": FULL_Q, "core": CORE_Q, "mini": MINI_Q}.get(case.get("level", "full"), FULL_Q)
     hist = [tuple(h) if not isinstance(h, tuple) else h for h in case["history"]]
     hist = [_detuple(h) for h in hist]
     m.step(hist[:-1], hist[-1], res, ctx)
